@@ -88,6 +88,25 @@ func (l *rxLog) known(kind string, a, b interface{}) bool {
 }
 
 func (l *rxLog) hook(kind string, a, b interface{}) {
+	if kind == "yield" {
+		// a point before a lock is taken: only perturb the schedule
+		l.mu.Lock()
+		on := l.perturb
+		dice := 0
+		if on {
+			dice = l.r.Intn(100)
+		}
+		l.mu.Unlock()
+		if on {
+			switch {
+			case dice < 20:
+				runtime.Gosched()
+			case dice < 32:
+				time.Sleep(time.Duration(20+dice*8) * time.Microsecond)
+			}
+		}
+		return
+	}
 	l.mu.Lock()
 	if !l.known(kind, a, b) {
 		l.foreign++
@@ -266,7 +285,7 @@ func c04Scenario(c *Ctx, cs c04Case) (labels []rxLabel, verdict string, detail m
 	reactive.VerifHook = log.hook
 	defer func() { reactive.VerifHook = nil }()
 	oldDelay := reactive.WriteThenReadDelay
-	reactive.WriteThenReadDelay = 0
+	reactive.WriteThenReadDelay = []time.Duration{0, 0, 150 * time.Microsecond, 600 * time.Microsecond}[r.Intn(4)]
 	defer func() { reactive.WriteThenReadDelay = oldDelay }()
 
 	w := &rxWorld{log: log}
@@ -427,6 +446,9 @@ func c04Scenario(c *Ctx, cs c04Case) (labels []rxLabel, verdict string, detail m
 	// implementation-level oracle
 	detail = map[string]interface{}{}
 	verdict = ""
+	log.mu.Lock()
+	detail["quiescent_at"] = len(log.labels)
+	log.mu.Unlock()
 	for _, rn := range runners {
 		if atomic.LoadInt32(&rn.overlap) == 1 {
 			verdict = "impl_ne_spec"
@@ -489,12 +511,57 @@ func c04Scenario(c *Ctx, cs c04Case) (labels []rxLabel, verdict string, detail m
 	return labels, verdict, detail
 }
 
+// rxQuiescentCheck replays the trace up to the moment the implementation was quiescent: the model
+// must not be committed to work the implementation will never do (an invalidation of a valid
+// node, a run of a live rerunner).
+func rxQuiescentCheck(m *Model, labels []rxLabel, at int) (string, map[string]interface{}) {
+	if at > len(labels) {
+		at = len(labels)
+	}
+	resp, err := m.Call(map[string]interface{}{"op": "replay", "labels": labels[:at]})
+	if err != nil {
+		return "harness_error", map[string]interface{}{"error": err.Error()}
+	}
+	if resp["stuck"] != nil {
+		return "", nil // reported by the full replay
+	}
+	st := resp["state"].(map[string]interface{})
+	flags := st["invalidated"].([]interface{})
+	for _, t := range st["pendingInv"].([]interface{}) {
+		n := int(toInt64(t))
+		if n < len(flags) && !flags[n].(bool) {
+			return "impl_ne_model", map[string]interface{}{"what": "the implementation is quiescent but the model is committed to invalidating a node that is still valid: an invalidation was lost", "node": n, "state": st}
+		}
+	}
+	rrs := st["rrs"].([]interface{})
+	for _, t := range st["pendingRun"].([]interface{}) {
+		r := int(toInt64(t))
+		if r < len(rrs) {
+			rm := rrs[r].(map[string]interface{})
+			if !rm["cancelled"].(bool) && !rm["stopped"].(bool) && !rm["failed"].(bool) {
+				return "impl_ne_model", map[string]interface{}{"what": "the implementation is quiescent but the model has a committed run of a live rerunner: a rerun was lost", "rerunner": r, "state": st}
+			}
+		}
+	}
+	for r, x := range rrs {
+		rm := x.(map[string]interface{})
+		if rm["inRun"] != nil {
+			return "impl_ne_model", map[string]interface{}{"what": "the implementation is quiescent but the model has a run in progress", "rerunner": r}
+		}
+	}
+	return "", nil
+}
+
 func c04One(c *Ctx, m *Model, cs c04Case) {
 	rep := c.Rep
 	labels, verdict, detail := c04Scenario(c, cs)
 	if verdict != "" {
 		detail["labels"] = len(labels)
 		rep.Fail(verdict, nil, cs, detail)
+		return
+	}
+	if kind, d := rxQuiescentCheck(m, labels, detail["quiescent_at"].(int)); kind != "" {
+		rep.Fail(kind, nil, cs, d)
 		return
 	}
 	resp, err := m.Call(map[string]interface{}{"op": "replay", "labels": labels})
